@@ -150,6 +150,7 @@ type Located struct {
 }
 
 var phase2Seqs = map[string][]string{
+	"second-prepare":    {}, // two more prepares in the same context (another action, then the first one again): judged before phase two
 	"commit":            {"commit"},
 	"rollback":          {"rollback"},
 	"commit-commit":     {"commit", "commit"},
@@ -165,7 +166,7 @@ var phase2Seqs = map[string][]string{
 func Enumerate(thorough bool, yield func(idx int, c Case)) int {
 	idx := 0
 	rets := []string{"true-nil", "false-nil", "true-err", "false-err"}
-	seqNames := []string{"commit", "rollback", "commit-commit", "rollback-rollback", "commit-rollback", "other-action", "unknown-resource", "empty-data", "malformed-data", "no-context-key"}
+	seqNames := []string{"second-prepare", "commit", "rollback", "commit-commit", "rollback-rollback", "commit-rollback", "other-action", "unknown-resource", "empty-data", "malformed-data", "no-context-key"}
 	for _, p := range paramCatalogue() {
 		for _, reg := range []string{"ok", "fail", "transport", "drop"} {
 			if reg != "ok" {
@@ -175,7 +176,10 @@ func Enumerate(thorough bool, yield func(idx int, c Case)) int {
 			}
 			for _, seq := range seqNames {
 				for _, ret := range rets {
-					if !thorough && p.Name != "tagged" && p.Name != "mixed" && (ret != "true-nil" || (seq != "commit" && seq != "rollback")) {
+					if seq == "second-prepare" && ret != "true-nil" {
+						continue
+					}
+					if !thorough && p.Name != "tagged" && p.Name != "mixed" && (ret != "true-nil" || (seq != "commit" && seq != "rollback" && seq != "second-prepare")) {
 						continue
 					}
 					yield(idx, Case{p.Name, reg, seq, ret})
@@ -278,6 +282,15 @@ func evalCase(r *rep.Run, c Case, idx int) {
 			func() {
 				defer func() { prepPanic = recover() }()
 				_, prepErr = proxyA.Prepare(ctx, pc.Value)
+				if c.Phase2 == "second-prepare" && prepErr == nil {
+					if _, err := proxyB.Prepare(ctx, pc.Value); err != nil {
+						prepErr = fmt.Errorf("second prepare (actB): %w", err)
+						return
+					}
+					if _, err := proxyA.Prepare(ctx, pc.Value); err != nil {
+						prepErr = fmt.Errorf("third prepare (actA again): %w", err)
+					}
+				}
 			}()
 			hold <- struct{}{}
 			<-hold
@@ -311,6 +324,38 @@ func evalCase(r *rep.Run, c Case, idx int) {
 		if iv.Method == "prepare" {
 			tries = append(tries, iv)
 		}
+	}
+	if c.Phase2 == "second-prepare" {
+		// every prepare registers its own branch, for its own action, before its own try
+		if prepErr != nil {
+			fail("prepare-error", "a prepare of the sequence failed: "+prepErr.Error())
+			return
+		}
+		wantRes := []string{"actA", "actB", "actA"}
+		if len(regs) != 3 || len(tries) != 3 {
+			fail("second-prepare-registrations", fmt.Sprintf("three prepares in one context sent %d BranchRegister requests and ran %d tries", len(regs), len(tries)))
+			return
+		}
+		var replies []int64
+		var replyAt []int
+		for i, ev := range tc.Events() {
+			if rr, ok := ev.Msg.Body.(message.BranchRegisterResponse); ok && ev.Dir == "s2c" {
+				replies = append(replies, rr.BranchId)
+				replyAt = append(replyAt, i)
+			}
+		}
+		for i := 0; i < 3; i++ {
+			rq := regs[i].Msg.Body.(message.BranchRegisterRequest)
+			if rq.ResourceId != wantRes[i] || tries[i].Action != wantRes[i] {
+				fail("second-prepare-resource", fmt.Sprintf("prepare %d: registered resource %q, try ran on %q, expected %q", i+1, rq.ResourceId, tries[i].Action, wantRes[i]))
+				return
+			}
+			if i >= len(replies) || tries[i].Branch != replies[i] || tries[i].AtEv <= replyAt[i] {
+				fail("second-prepare-branch", fmt.Sprintf("prepare %d: try saw branch %d at event %d; its registration reply carried %v at %v", i+1, tries[i].Branch, tries[i].AtEv, replies, replyAt))
+				return
+			}
+		}
+		return
 	}
 	if len(regs) != 1 {
 		fail("registrations", fmt.Sprintf("%d BranchRegister requests were sent for one prepare", len(regs)))
